@@ -387,7 +387,9 @@ func runRecv(in recvIn) Sx {
 	router.NewRoute().HandlerFunc(func(s xmpp.Sender, p stanza.Packet) {
 		x := packetSx(p)
 		lg.mu.Lock()
-		if goid() == lg.recvG {
+		// A component hands its packets to the router in arrival order: the ORDER of the handler calls is what is
+		// recorded (in the one ordered log), not which goroutine makes them.
+		if in.Component || goid() == lg.recvG {
 			lg.sync_ = append(lg.sync_, L(Z(0), x))
 		} else {
 			lg.async = append(lg.async, x)
@@ -533,7 +535,20 @@ func runRecv(in recvIn) Sx {
 	lg.mu.Lock()
 	defer lg.mu.Unlock()
 	async := canonAsync(lg.async, in.completeItems())
-	return L(LS(lg.sync_), LS(async), Zi(leaked))
+	syncLog := lg.sync_
+	if in.Component {
+		// handler calls first (their order is what the property fixes), then the loop's other actions, in order
+		var routes, others []Sx
+		for _, e := range syncLog {
+			if len(e.L) > 0 && e.L[0].K == "z" && e.L[0].Z == 0 {
+				routes = append(routes, e)
+			} else {
+				others = append(others, e)
+			}
+		}
+		syncLog = append(routes, others...)
+	}
+	return L(LS(syncLog), LS(async), Zi(leaked))
 }
 
 // canonAsync orders the observed asynchronously routed packets by the position of
